@@ -91,11 +91,22 @@ impl CellBuffer {
     /// calculate the appropriate size (w,h) in pixels for the whole cell buffer to fit
     /// appropriately
     pub(crate) fn get_size(&self, settings: &Settings) -> (f32, f32) {
-        let (_top_left, bottom_right) =
-            self.bounds().unwrap_or((Cell::new(0, 0), Cell::new(0, 0)));
+        let bottom_right = self.last_occupied();
         let w = settings.scale * (bottom_right.x + 2) as f32 * Cell::width();
         let h = settings.scale * (bottom_right.y + 2) as f32 * Cell::height();
         (w, h)
+    }
+
+    /// the right-most and bottom-most occupied cell; a double-width character also
+    /// occupies the cell to its right
+    fn last_occupied(&self) -> Cell {
+        let x = self
+            .iter()
+            .map(|(cell, ch)| cell.x + ch.width().unwrap_or(1).max(1) as i32 - 1)
+            .max()
+            .unwrap_or(0);
+        let y = self.iter().map(|(cell, _)| cell.y).max().unwrap_or(0);
+        Cell::new(x, y)
     }
 
     /// get all nodes of this cell buffer
